@@ -505,11 +505,12 @@ def ptb_delete_traces(tree, **params):
     for trace in traces:
         tracelabel = trees.parse_label(trace.data['word'])
         coindex = str(tracelabel.coindex)
+        barelabel = tracelabel.label
         if not keepcoindex:
             tracelabel.coindex = ""
         tracelabel.gapindex = ""
         tracelabel = trees.format_label(tracelabel)
-        if keepall or tracelabel in keep:
+        if keepall or tracelabel in keep or barelabel in keep:
             if len(coindex) > 0:
                 index_to_traces[coindex].append(trace)
             trace.data['label'] = tracelabel
